@@ -338,10 +338,15 @@ def groups(nb, tier="quick", lc=False):
 _Q = groups(2)
 # thorough tier: the raster neighbour maxima (4 = rook / bishop, 8 = queen); the step's inner loops are closed by loop contracts
 _T = groups(4, "thorough", lc=True) + groups(8, "thorough", lc=True)
+# measured (cadical for the step groups, minisat for the sweep; machine shared with the check suite): nb4 structure 149-165 s, weights_normal_range 142 s,
+# weights_finite 206 s (fails only the F5 postcondition), loop 61 s; nb8 structure 288 s, weights_normal_range 495 s, weights_finite 669 s, loop 122 s
+_QUICK_T = ("mrouter.step.structure.nb4", "mrouter.step.weights_normal_range.nb4", "mrouter.loop.nb4")   # < 3 min each
 for _g in _T:
     if ".loop." in _g.name:
         _g.object_bits = 12
     _g.timeout = 3600
+    if _g.name in _QUICK_T:
+        _g.tier = "quick"
 GROUPS = {"C05": _Q + _T,
           # donor entries with multiplicity (C06) and the router lemma of C01 are postconditions of the same step/loop groups
           "C06": [g for g in _Q if "structure" in g.name or ".loop." in g.name],
